@@ -1,10 +1,10 @@
 (* Property C19: lattice geometry - index maps are bijections and couplings are enumerated exactly.
-   Only statements; every proof is `exact <lemma from Proofs/LatticeP.v, LatticeP2.v, LatticeP3.v or LatticeP4.v>`.
+   Only statements; every proof is `exact <lemma from Proofs/LatticeP.v, LatticeP2.v, LatticeP3.v, LatticeP4.v or LatticeP5.v>`.
    All theorems hold for every dimension (1 + length (Lr lat)), all sizes, every unit cell size and
    every order array that lists distinct sites of the box (regular lattices: all of them; irregular
    lattices: a subset), finite and infinite MPS boundary conditions. *)
 From TenpyV Require Import Base.Prelude Model.Lattice Model.LatticeVals Model.LatticeMulti Model.LatticeTransform.
-From TenpyV Require Import Proofs.LatticeP Proofs.LatticeP2 Proofs.LatticeP3 Proofs.LatticeP4 Proofs.LatticeTransformP.
+From TenpyV Require Import Proofs.LatticeP Proofs.LatticeP2 Proofs.LatticeP3 Proofs.LatticeP4 Proofs.LatticeP5 Proofs.LatticeTransformP.
 Open Scope Z_scope.
 
 (* get_order with priority=None (C-style and every combination of snake flags) enumerates every lattice
@@ -123,6 +123,18 @@ Theorem T19_couplings_reverse : forall lat, wf lat -> forall u1 u2 dx0 dxr,
   forall i j, In (i, j) (coupling_pairs lat u1 u2 dx0 dxr) <->
               In (j, i) (coupling_pairs lat u2 u1 (- dx0) (map Z.opp dxr)).
 Proof. exact couplings_reverse. Qed.
+
+(* A multi-coupling of two operators, the first at displacement 0, is a two-site coupling: specification
+   (multi_coupled / coupled) and code (possible_multi_couplings / possible_couplings, both correspondence-checked
+   model functions) enumerate the same pairs (i, j) - add_multi_coupling_term with two operators and add_coupling
+   address the same bonds.  Hypothesis on bc_shift as in T19_multi_couplings_exact. *)
+Theorem T19_two_operator_multi_coupling : forall lat, wf lat -> forall u1 u2 dx0 dxr,
+  0 <= u1 < Lu lat -> 0 <= u2 < Lu lat -> length dxr = length (Lr lat) ->
+  (open0 lat = true -> Forall (fun s => s = 0) (shiftr lat)) ->
+  let ops : list op := [(0, repeat 0 (length (Lr lat)), u1); (dx0, dxr, u2)] in
+  (forall i j, multi_coupled lat ops [i; j] <-> coupled lat u1 u2 dx0 dxr i j) /\
+  (forall i j, In [i; j] (multi_ijkl lat ops) <-> In (i, j) (coupling_pairs lat u1 u2 dx0 dxr)).
+Proof. exact two_operator_multi_coupling. Qed.
 
 (* ---- non-vacuity and documented examples ---- *)
 
@@ -269,6 +281,12 @@ Example T19_example_reverse :
   coupling_pairs ex_irregular 0 1 (-1) [0] = [(5, 2); (7, 4); (11, 8); (13, 10)].
 Proof. vm_compute. split; reflexivity. Qed.
 
+(* two-operator multi-couplings of T19_example_couplings / T19_example_irregular: the same bonds *)
+Example T19_example_two_ops :
+  multi_ijkl ex_honey [(0, [0], 0); (-1, [-1], 1)] = [[10; 3]; [9; 4]; [11; 5]; [13; 8]; [14; 7]; [12; 6]] /\
+  multi_ijkl ex_irregular [(0, [0], 1); (1, [0], 0)] = [[2; 5]; [4; 7]; [8; 11]; [10; 13]].
+Proof. vm_compute. split; reflexivity. Qed.
+
 Print Assumptions T19_get_order_perm.
 Print Assumptions T19_get_order_priority_perm.
 Print Assumptions T19_index_inverse.
@@ -282,3 +300,4 @@ Print Assumptions T19_species_index_bijection.
 Print Assumptions T19_species_pairs.
 Print Assumptions T19_index_injective.
 Print Assumptions T19_couplings_reverse.
+Print Assumptions T19_two_operator_multi_coupling.
